@@ -60,7 +60,8 @@ template<class G, class L> static void config(const char* name, const G& g, cons
     double d = (double)chord(c.ea, c.f, r.lat2, r.lon2, P.lat2, P.lon2);
     if (!(d <= t3)) bad("inverseline-" + cn, "InverseLine(p1, p2).Position(Distance()) is " + std::to_string(d * 1e9) + " nm from p2");
     double sw = u.lon2 - c.lon1, w = double(oracle::DEG * c.ea * cosbeta(c.f, P.lat2));
-    if (!(std::fabs(std::remainder(sw - (P.lon2 - c.lon1), 360.0)) * w <= t3 + 1e-15 * std::fabs(c.lon1) * c.ea) || (c.f >= 0 && !(std::fabs(sw) <= 180 + 1e-9)))
+    double d0 = std::remainder(P.lon2 - c.lon1, 360.0);   // the longitude difference of a shortest path is at most 180 degrees
+    if (!(std::fabs(std::remainder(sw - d0, 360.0)) * w <= t3 + 1e-15 * std::fabs(c.lon1) * c.ea) || (std::fabs(d0) < 179.9 && !(std::fabs(sw - d0) < 1)) || (c.f >= 0 && !(std::fabs(sw) <= 180 + 1e-9)))
       bad("inverseline-" + cn, "InverseLine with LONG_UNROLL: lon2 - lon1 = " + std::to_string(sw) + " is not the longitude difference of the shortest path to lon2 = " + std::to_string(P.lon2));
   }
   // (4) the oracle: the true geodesic
